@@ -167,6 +167,31 @@ Theorem C09_no_source : forall sb perdisk, disk_io_counters perdisk sb NoSource 
 Proof. exact no_source. Qed.
 Print Assumptions C09_no_source.
 
+(* successive calls with the DEFAULT arguments (nowrap=True; _WrapNumbers modelled: the cache entry is
+   rebound to each call's raw dict -- also an empty one --, reminders dropped with their key), cache
+   cleared first.  Hypothesis of the property for a history: between two CONSECUTIVE polls no
+   reported counter decreases while its device is listed in both (genuine wraps are C10's business).
+   Then EVERY poll reports exactly that poll's kernel counters: interfaces may vanish, polls may
+   list nothing, devices may come back with lower or higher counters, pernic may alternate *)
+Theorem C09_net_polls_exact : forall sp hist,
+  forallb (fun pl => wf_nics (snd pl)) hist = true ->
+  steady_consec [] (net_hist_rows hist) = true ->
+  net_polls false wc_init (map (fun pl => (fst pl, k_netdev sp (snd pl))) hist)
+  = map (fun pl => XV (Val (spec_net (fst pl) (snd pl)))) hist.
+Proof. exact net_polls_exact. Qed.
+Print Assumptions C09_net_polls_exact.
+
+(* the same for disk_io_counters, perdisk alternating (one shared cache: what is compared is the raw
+   dict of the previous call, i.e. the /sys/block entries only after a perdisk=False call) and
+   /sys/block changing between polls *)
+Theorem C09_disk_polls_exact : forall hist,
+  forallb (fun p => wf_disks (snd p) && no_l24 (snd p)) hist = true ->
+  steady_consec [] (disk_hist_rows hist) = true ->
+  disk_polls wc_init (map (fun p => (fst (fst p), snd (fst p), ProcDiskstats (k_diskstats (snd p)))) hist)
+  = map (fun p => Val (spec_disks (snd (fst p)) (fst (fst p)) (snd p))) hist.
+Proof. exact disk_polls_exact. Qed.
+Print Assumptions C09_disk_polls_exact.
+
 (* disk_usage: used = total - free-for-root, free = available to unprivileged users,
    percent = used / (used + free) * 100 (exact rational; 0 when used + free = 0), every statvfs tuple *)
 Theorem C09_disk_usage_spec : forall st, disk_usage st = spec_usage st.
